@@ -18,7 +18,10 @@ The bulk of this property is OBSERVATION of autograd on the implementation (diff
      partial derivative vs `run_std` / `run_gap8` (dual numbers) evaluated by vm_compute, relative 2^-20.
  (b) SuperNet / MPS / ODiMO_MPS: small fixed models, every applicable spec, single + dictionary specification, seeded
      coefficients: same oracle sentences; model: mix_cost / mps_layer_cost / wavg on the sampled coefficients and the
-     branch costs read from the implementation, d cost / d theta == branch cost.
+     branch costs read from the implementation, d cost / d theta == branch cost; the value / gradient sentences are
+     evaluated again after observer calls (forward -> export()/summary()/get_cost -> cost -> autograd.grad).
+ (a2) PIT with full_cost=True, excluded cost-bearing layers (fixed layers of the model), metrics read in seeded orders,
+     every metric against its single-specification wrapper, the original-model cost and the model.
 """
 import json, traceback, math
 from .common import *
@@ -51,11 +54,13 @@ def run(ctx):
     ctx.rule = ('(a) PIT: grammar architectures (1-D causal and 2-D; conv/depthwise/residual/concat/pool/flatten/linear heads) x all applicable built-in specs as a dictionary '
                 '+ one single specification; trainable mask parameters seeded with dyadic values (styles rand / with exact zeros / small / big); per network: value, autograd '
                 'gradient of every trainable element, +1 magnitude bump of every element, weight perturbation, other input batch + eval mode, one raised and one lowered '
-                'parameter vector, all masks +-1; (b) fixed SuperNet (S0, S1) / MPS (M0, M1; per-layer and per-channel) / ODiMO_MPS (defaults) models with seeded coefficients. '
+                'parameter vector, all masks +-1, the metrics re-read in two other orders; (a2) the same with full_cost=True and 1-2 cost-bearing layers excluded by name (costed with their static sizes), one single-specification wrapper per metric; (b) fixed SuperNet (S0, S1) / MPS (M0, M1; per-layer and per-channel) / ODiMO_MPS (defaults) models with seeded coefficients; value and gradients again after forward -> export() / summary() / get_cost / export()+summary() without a forward in between. '
                 'non-trivial = at least one searchable layer and one trainable non keep-alive parameter element; distinct = distinct (architecture, parameter values) / (model, seed)')
     from concurrent.futures import ProcessPoolExecutor
     import multiprocessing as mp
+    nfull = 16 if ctx.quick else 120
     pjobs = [(ctx.seed * 100003 + i, STYLES[i % len(STYLES)]) for i in range(npit)]
+    pjobs += [(ctx.seed * 100003 + 50000 + i, STYLES[i % len(STYLES)], True) for i in range(nfull)]    # full_cost=True + excluded layers
     mjobs = _mix_jobs(ctx.seed, ctx.quick)
     with ProcessPoolExecutor(max_workers=min(NPROC, 12), mp_context=mp.get_context('fork')) as ex:
         fm = [ex.submit(cm.mix_worker, j) for j in mjobs]
@@ -70,19 +75,21 @@ def run(ctx):
             skipped += 1
             ctx.dist['pit-skipped:' + o['skip']] += 1
             continue
-        ctx.case(('pit', o['arch'], json.dumps(o.get('params', {}), sort_keys=True)), nontrivial=o.get('n_nas', 0) > 0, kind='pit:%dd:%s' % (o['dim'], o['style']),
+        ctx.case(('pit', o['arch'], o.get('full'), o.get('excluded'), json.dumps(o.get('params', {}), sort_keys=True)), nontrivial=o.get('n_nas', 0) > 0, kind='pit%s:%dd:%s' % ('-full-cost' if o.get('full') else '', o['dim'], o['style']),
                  sample={'arch': o['arch'], 'style': o['style'], 'cost': {k: {q: v.get(q) for q in ('value', 'hi', 'lo', 'open', 'orig')} for k, v in o['specs'].items()}} if o['seed'] % 13 == 0 else None)
         for prod in o['productions']:
             ctx.dist['prod:' + prod] += 1
         if o.get('topo'):
             ctx.dist['topology:' + o['topo']] += 1
         for key, info in o['fails']:
-            fails.append(('PIT:' + key, {'kind': 'pit', 'seed': o['seed'], 'style': o['style'], 'arch': o['arch']}, {'detail': info, 'trace': o.get('trace')}))
+            fails.append(('PIT:' + key, {'kind': 'pit', 'seed': o['seed'], 'style': o['style'], 'full': o.get('full', False), 'arch': o['arch']}, {'detail': info, 'trace': o.get('trace')}))
     ctx.extra['pit_networks'] = len(nets) - skipped
     # ---------------- (b) mixtures
     for o in mixes:
         ctx.case((o['method'], o['model'], o['seed']), nontrivial=True, kind='%s:%s' % (o['method'], o['model']),
                  sample={'method': o['method'], 'model': o['model'], 'cost': {k: v.get('value') for k, v in o['specs'].items()}} if o['seed'] % 7 == 0 else None)
+        for r in o.get('observer_raised', []):
+            ctx.dist['observer-raised:%s:%s' % (o['method'], r.split(':')[0])] += 1
         for key, info in o['fails']:
             args = {'kind': {'SuperNet': 'sn', 'MPS': 'mps', 'ODiMO_MPS': 'odimo'}[o['method']], 'seed': o['seed'], 'model': o['model'],
                     'flag': o.get('full_cost', o.get('per_channel', o.get('as_dict')))}
@@ -111,7 +118,7 @@ def run(ctx):
             for (o, which, S), v in zip(refs, vals):
                 (cn, cd, (on, od), grads) = v
                 mval, morig = Fraction(cn, cd), Fraction(on, od)
-                case = {'kind': 'pit', 'seed': o['seed'], 'style': o['style'], 'arch': o['arch'], 'spec': which}
+                case = {'kind': 'pit', 'seed': o['seed'], 'style': o['style'], 'full': o.get('full', False), 'excluded': o.get('excluded'), 'arch': o['arch'], 'spec': which}
                 ctx.corr += 2
                 if not close(S['value64'], mval):
                     mism.append((case, {'what': 'cost value', 'impl': S['value64'], 'model': float(mval)}))
@@ -210,7 +217,7 @@ def replay(r):
     print(json.dumps({k: v for k, v in r.items() if k not in ('observed',)}, indent=1, default=jdefault)[:2500])
     c = r.get('case', {})
     if c.get('kind') == 'pit' and 'seed' in c:
-        o = cp.pit_case(torch, c['seed'], c['style'])
+        o = cp.pit_case(torch, c['seed'], c['style'], c.get('full', False))
         print('replayed on the implementation: cost', {k: v.get('value') for k, v in o['specs'].items()})
         print('required: finite non-negative cost, gradients only to the mask parameters (sign of the element, non-zero where the cost rises), independent of weights/inputs, '
               'monotone in |parameter|, open masks == original cost')
